@@ -16,7 +16,7 @@ Local Open Scope Z_scope.
 (* The Section variables of the generated file are instantiated by position below; these lines pin
    their names, so a change of callee cannot go unnoticed. *)
 Arguments RequestMarshaler_Marshal Requester error_T proto_Request Requester_GetRequest
-  proto_Request_GetStatements pb_Marshal gzCompress _ _ : assert.
+  gzCompress pb_Marshal proto_Request_GetStatements _ _ : assert.
 
 Definition zs (b : bytes) : list Z := map Z.of_N b.
 Definition ns (l : list Z) : bytes := map Z.to_N l.
@@ -48,7 +48,7 @@ Section Marshal.
   Definition gz_compress (l : list Z) : list Z * option E :=
     match gzip (ns l) with Some g => (zs g, None) | None => ([], Some err) end.
   Definition gen_marshal (c : mcfg) (r : req) : list Z * bool * option E :=
-    RequestMarshaler_Marshal req E (list stmt) get_request get_statements pb_marshal gz_compress (rep c) r.
+    RequestMarshaler_Marshal req E (list stmt) get_request gz_compress pb_marshal get_statements (rep c) r.
 
   (* the loop over the statements decides like existsb *)
   Lemma gen_Marshal_eq : forall c ss raw gz,
